@@ -770,6 +770,6 @@ def run(ctx, pid):
 def replay(ctx, pid, finding):
     sc = dict(finding['scenario']); sc['id'] = 1
     tr, _ = srvfam.run_harness(ctx, [sc], 'replay', shards=1)
-    srvfam.judge(ctx, [sc], tr, props=FAM[pid]['props'])
+    srvfam.judge(ctx, [sc], tr, props=FAM[pid]['props'], confirm=False)
 
 
